@@ -27,7 +27,7 @@ def model_and_replay(ctx, prefix, nvariants, mops, gops, every):
         nb = ctx.behaviours(g, beh)
         tf = ctx.work + "/trace_beh_%s.ndjson" % name
         s, _ = ctx.run_vh(["screen", "--behaviours", beh, "--behevery", every, "--terms", term, "--random", 0, "--seed", ctx.seed,
-                           "--out", tf], timeout=3000)
+                           "--out", tf] + (["--nopad"] if every == 1 else []), timeout=3000)
         r = ctx.validate_parallel("TScreenTrace", tf, parts=8, expect_events=s.get("events"), timeout=3400)
         mine = [d for d in r["devs"] if d["tag"].startswith(prefix + ".")]
         for d in mine:
